@@ -562,8 +562,10 @@ def sync_aware_insertion(state: VRPState, rng: Random) -> VRPState:
             state.unassigned.remove(cid)
             state.sync_assignments[cid] = {v for v, _ in best_insertions}
 
+    not_placed = {c for c in multi if c in state.unassigned}
     state.unassigned = set(single)
     state = regret_insertion(state, rng)
+    state.unassigned.update(not_placed)
 
     state.update_arrival_times()
     return state
